@@ -139,8 +139,10 @@ func IntFromString(str string, base int) (Object, error) {
 	}
 
 	// Detect leading zeros which Python doesn't allow using base 0
-	if base == 0 {
-		if len(s) > 1 && s[0] == '0' && (s[1] >= '0' && s[1] <= '9') {
+	// (a decimal literal only: digits after a 0x/0o/0b prefix may start
+	// with zeros, and so may a literal that is zero)
+	if base == 0 && convertBase == 10 {
+		if len(s) > 1 && s[0] == '0' && (s[1] >= '0' && s[1] <= '9') && strings.Trim(s, "0") != "" {
 			goto error
 		}
 	}
